@@ -31,7 +31,14 @@ Example c12_nonvacuous :
               raw_customs (em_secs e) = [([120]%N, [1;2]%N); ([], []); ([120]%N, [1;2]%N)].
 Proof. eexists. eexists. split; [vm_compute; reflexivity|]. split; vm_compute; reflexivity. Qed.
 
+From WV Require Gen.ConfigEmit Proofs.Config.
+(* the source of Module::emit_wasm the model follows (regenerated on every run): section order, switch conditions, and the custom-section
+   loop: skip .debug*, apply the code transform, write name and data of EVERY remaining section, hand the sections back *)
+Theorem c12_emit_wasm_source_pinned : WV.Gen.ConfigEmit.emit_wasm_skeleton = WV.Proofs.Config.expected_emit_wasm_skeleton.
+Proof. exact WV.Proofs.Config.emit_wasm_skeleton_pinned. Qed.
+
 Print Assumptions c12_roundtrip.
 Print Assumptions c12_gc.
 Print Assumptions c12_emit_keeps_module.
 Print Assumptions c12_twice.
+Print Assumptions c12_emit_wasm_source_pinned.
